@@ -303,7 +303,8 @@ fn boolean_part(run: &Run, k_max: usize, small_full: bool, full_vals: bool) -> A
         }
         forms.extend(extra);
     }
-    let jobs: Vec<(usize, bool)> = (0..atom_sets.len()).flat_map(|a| [(a, false), (a, true)]).collect();
+    // the two ordering-comparison sets run on the array-shaped container only (quick-tier budget)
+    let jobs: Vec<(usize, bool)> = (0..atom_sets.len()).flat_map(|a| if a >= 7 && !full_vals { vec![(a, false)] } else { vec![(a, false), (a, true)] }).collect();
     let mut total = Acc::new();
     for (ai, as_obj) in jobs {
         let atoms = &atom_sets[ai];
@@ -449,6 +450,8 @@ fn kept_scoping_part(run: &Run) -> Acc {
                     return acc;
                 }
             };
+            // states: the distinct contents of the variable (root values x how they got there)
+            acc.states += 2 * us.len() as u64;
             // every ordered pair (and so every history of two root values) occurs in the walk over us x us; the
             // document is replaced as a whole (mode 0) or its member `u` is updated in place (mode 1)
             let mut slot = Value::Null;
